@@ -841,7 +841,7 @@ func registryCases(r *ev.Run, e *env) {
 
 // Run is the C19 monitor.
 func Run(r *ev.Run) {
-	r.Rule = "Open: path lists of 0-5 entries over {custom sink ok/failing, absolute/relative file, file URL, unopenable file, directory, unknown scheme, unparsable URL} with every failing subset drawn by mask; Config.Build: every error path (bad output/error-output path, unknown/empty encoding, missing time encoder, missing level) over otherwise valid sink lists; RedirectStdLogAt at all 256 levels under random prior flags/prefix/writer; file URLs assembled from components (scheme case, host, user info, port, query, fragment, escapes); registry names; observed through counting custom sinks, the /proc/self/fd table, the sandbox directory and the std logger's settings; distinct = distinct kind lists / component tuples"
+	r.Rule = "Open: path lists of 0-5 entries over {custom sink ok/failing, absolute/relative file, file URL, unopenable file, directory, unknown scheme, unparsable URL} with every failing subset drawn by mask; Config.Build: every error path (bad output/error-output path, unknown/empty encoding, missing time encoder, missing level) over otherwise valid sink lists; RedirectStdLogAt at all 256 levels under random prior flags/prefix/writer; file URLs assembled from components (scheme case, host, user info, port, query, fragment, escapes); registry names; observed through counting custom sinks, the /proc/self/fd table, the sandbox directory and the std logger's settings; distinct = distinct kind lists / component tuples; after each successful redirection six blank/padded/multi-line messages through log.Print/Println/NewStdLogAt, one entry per acknowledged write"
 	dir := filepath.Join(ev.WorkDir(), "c19")
 	_ = os.MkdirAll(dir, 0o755)
 	old, _ := os.Getwd()
